@@ -667,6 +667,16 @@ fn x1_path(p: &mut syn::Path, qself: &mut Option<syn::QSelf>) -> bool {
             rename_first(p, "Sc");
             return true;
         }
+        // X1: `nalgebra::x`, `num_traits::x`, `levenberg_marquardt::x`: the dependency's items live unqualified in the prelude
+        "nalgebra" | "num_traits" | "levenberg_marquardt" if n >= 2 => {
+            let rest: Vec<syn::PathSegment> = p.segments.iter().skip(1).cloned().collect();
+            let mut np = syn::Path { leading_colon: None, segments: syn::punctuated::Punctuated::new() };
+            for s in rest {
+                np.segments.push(s);
+            }
+            *p = np;
+            return true;
+        }
         // X1: String / str -> the abstract name type of the prelude
         "String" | "str" if n == 1 => {
             rename_first(p, "Name");
@@ -914,6 +924,27 @@ impl Pass {
         let m = mc.method.to_string();
         if !["map", "and_then", "filter", "map_err", "unwrap_or_else", "ok_or_else", "or_else", "is_some_and", "map_or"].contains(&m.as_str()) {
             return None;
+        }
+        // X12b: the argument is the path of a conversion trait method (`and_then(TryInto::try_into)`): by the definition of
+        // method-call syntax `Trait::method(v)` is `v.method()`
+        if let (Some(Expr::Path(pa)), 1) = (mc.args.last(), mc.args.len()) {
+            let segs: Vec<String> = pa.path.segments.iter().map(|s| s.ident.to_string()).collect();
+            let n = segs.len();
+            if n >= 2 && ((segs[n - 2] == "TryInto" && segs[n - 1] == "try_into") || (segs[n - 2] == "Into" && segs[n - 1] == "into")) {
+                let meth = syn::Ident::new(&segs[n - 1], Span::call_site());
+                let recv = &mc.receiver;
+                let out: Option<Expr> = match (self.kind_of(&mc.receiver), m.as_str()) {
+                    (Kind::Res, "and_then") => Some(parse_quote!(match #recv { Ok(__v) => __v.#meth(), Err(__e) => Err(__e) })),
+                    (Kind::Res, "map") => Some(parse_quote!(match #recv { Ok(__v) => Ok(__v.#meth()), Err(__e) => Err(__e) })),
+                    (Kind::Opt, "and_then") => Some(parse_quote!(match #recv { Some(__v) => __v.#meth(), None => None })),
+                    (Kind::Opt, "map") => Some(parse_quote!(match #recv { Some(__v) => Some(__v.#meth()), None => None })),
+                    _ => None,
+                };
+                if out.is_some() {
+                    self.rw.note("X12", e.span().start().line);
+                }
+                return out;
+            }
         }
         let clo = match mc.args.last() {
             Some(Expr::Closure(c)) => c.clone(),
@@ -1441,12 +1472,41 @@ pub fn extract(ast: &syn::File, file: &str, spec: &FnSpec, pr: &mut Printer) -> 
         RenameSelf.visit_block_mut(&mut block);
         block.stmts.insert(0, parse_quote!(let mut __self = self;));
     }
+    // X14b: `mut x: T` parameters (the template declares them without `mut`): shadowed by `let mut x = x;`
+    let mut mut_params: Vec<syn::Ident> = vec![];
+    for a in f.sig.inputs.iter() {
+        if let syn::FnArg::Typed(pt) = a {
+            if let Pat::Ident(pi) = &*pt.pat {
+                if pi.mutability.is_some() && pi.by_ref.is_none() {
+                    mut_params.push(pi.ident.clone());
+                }
+            }
+        }
+    }
+    for (k, x) in mut_params.iter().enumerate() {
+        block.stmts.insert(k, parse_quote!(let mut #x = #x;));
+    }
     let subst: Vec<(String, String)> = spec
         .attrs
         .get("subst")
         .map(|s| s.split(',').filter_map(|kv| kv.split_once(':').map(|(a, b)| (a.to_string(), b.to_string()))).collect())
         .unwrap_or_default();
     let mut field_kinds: BTreeMap<String, Kind> = BTreeMap::new();
+    // X12 bookkeeping: Option / Result fields of the receiver's struct, read off its declaration in the same file
+    if let Some(st) = spec.attrs.get("self") {
+        let name: String = st.trim_start_matches('&').chars().take_while(|c| c.is_alphanumeric() || *c == '_').collect();
+        if let Some(sd) = find_struct(&ast.items, &name) {
+            for fld in sd.fields.iter() {
+                if let (Some(id), syn::Type::Path(tp)) = (&fld.ident, &fld.ty) {
+                    match tp.path.segments.last().map(|s| s.ident.to_string()).as_deref() {
+                        Some("Option") => { field_kinds.insert(id.to_string(), Kind::Opt); }
+                        Some("Result") => { field_kinds.insert(id.to_string(), Kind::Res); }
+                        _ => {}
+                    }
+                }
+            }
+        }
+    }
     if let Some(k) = spec.attrs.get("kinds") {
         for kv in k.split(',') {
             if let Some((a, b)) = kv.split_once(':') {
@@ -1469,7 +1529,7 @@ pub fn extract(ast: &syn::File, file: &str, spec: &FnSpec, pr: &mut Printer) -> 
         proofs: spec.proofs.clone(),
         used_proofs: vec![false; spec.proofs.len()],
     };
-    if mut_self {
+    if mut_self || !mut_params.is_empty() {
         pass.rw.note("X14", f.line_start);
     }
     pass.visit_block_mut(&mut block);
